@@ -72,15 +72,30 @@ def run(model, col, tier):
             col.ok("R03.1", f"{key}::'{name}' bound once", f"'{name}' is bound before the interpreter loop and only subscripted inside it")
     # ---- R03.2 ---------------------------------------------------------
     # the value map: the name the constants are registered in / that arms index by instruction.Reference
-    scope_names = [nm for nm in state if nm not in params and any(
-        isinstance(v, (ast.Dict,)) or (isinstance(v, ast.Call) and dotted(v.func) in ("dict", "collections.OrderedDict", "OrderedDict"))
-        for v in find_assign(ex, nm))]
-    col.floor("R03.2", "per-activation value map", len(scope_names), 1)
+    stored_in_loop = set()
+    for n in ast.walk(vm.loop):
+        if isinstance(n, ast.Subscript) and isinstance(n.ctx, ast.Store) and isinstance(n.value, ast.Name):
+            stored_in_loop.add(n.value.id)
+    scope_names = [nm for nm in state if nm not in params and nm in stored_in_loop]
+    col.floor("R03.2", "per-activation value map (written by the opcode arms)", len(scope_names), 1)
+
+    def is_fresh_container(v):
+        if isinstance(v, (ast.Dict, ast.DictComp, ast.List, ast.ListComp)):
+            return True
+        if isinstance(v, ast.Call):
+            d = dotted(v.func) or ""
+            if d in ("dict", "list", "collections.OrderedDict", "OrderedDict", "copy.copy", "copy.deepcopy"):
+                return True
+            if isinstance(v.func, ast.Attribute) and v.func.attr == "copy" and not v.args:
+                return True
+        return False
+
     for nm in scope_names:
         vals = find_assign(ex, nm)
-        fresh = all(isinstance(v, ast.Dict) and not v.keys or (isinstance(v, ast.Call) and not v.args and not v.keywords) for v in vals)
-        col.check(fresh and len(vals) == 1, "R03.2", f"{key}::'{nm}' fresh", f"'{nm}' = {unparse(vals[0])}: a fresh empty map per activation",
-                  f"'{nm}' is not initialised exactly once from a fresh empty container: {[unparse(v) for v in vals]}", VM, ex)
+        fresh = bool(vals) and all(is_fresh_container(v) for v in vals)
+        col.check(fresh, "R03.2", f"{key}::'{nm}' fresh", f"'{nm}' = {unparse(vals[0]) if vals else '?'}: a fresh map per activation",
+                  f"'{nm}' is bound to {[unparse(v) for v in vals]}: not a container created freshly for this activation, so activations of a function "
+                  "(recursion, repeated calls) share one value map", VM, ex)
         escapes = []
         for n in ast.walk(ex):
             if isinstance(n, ast.Call):
@@ -247,10 +262,10 @@ def run(model, col, tier):
             it = n.generators[0].iter
             iter_all = unparse(it)
     col.check(uses_name, "R03.4", f"{TYPES}::Function.GetMangledName mentions the name", "mangled name contains self.name", None, TYPES, gm)
-    col.check(iter_all is not None and "argumentTypes" in iter_all and "[" not in iter_all and not any(
+    col.check(iter_all is not None and "argumentTypes" in iter_all and iter_all.endswith(".values()") and "[" not in iter_all and not any(
         isinstance(n, ast.Subscript) and isinstance(n.slice, ast.Slice) for n in ast.walk(gm)), "R03.4",
         f"{TYPES}::Function.GetMangledName mentions every argument type",
-        f"mangled name joins str() of all of {iter_all}", f"mangled name does not enumerate all argument types ({iter_all}): overloads differing elsewhere collide", TYPES, gm)
+        f"mangled name joins str() of all of {iter_all}", f"mangled name does not enumerate all argument *types* (it iterates `{iter_all}`; the types are the mapping's values): overloads that differ only in a parameter type share one IR name and the last definition wins", TYPES, gm)
     strs = [n for n in ast.walk(gm) if isinstance(n, ast.Call) and dotted(n.func) in ("str", "repr")]
     col.check(bool(strs) or "{" in txt, "R03.4", f"{TYPES}::Function.GetMangledName formats types", "argument types are formatted by str()", None, TYPES, gm)
     # CreateFunction must not silently replace (it does `self.__functions[name] = f`): relies on unique names,
